@@ -87,6 +87,7 @@ def regen_gen():
     path = os.path.join(COQ, "gen", "Gen.v")
     old = open(path).read() if os.path.exists(path) else None
     if old != text:
+        os.makedirs(os.path.dirname(path), exist_ok=True)
         with open(path, "w") as f:
             f.write(text)
     m = re.search(r"\(\* untranslatable: (.*) \*\)", text)
